@@ -15,6 +15,7 @@ source's opposite-helicity convention does. The statement for arbitrary trees is
 import Ampverif.Lemmas.C04Rest
 import Ampverif.Lemmas.C04Opposite
 import Ampverif.Lemmas.C04Inst
+import Ampverif.Lemmas.C04TreeInst
 import Ampverif.Model.C04Frames
 
 namespace Ampverif.Props.C04
@@ -259,74 +260,57 @@ theorem C04_W_topologies_01_2_and_02_1_have_none :
     Ampverif.Model.C04Frames.hasDecayingOpposite topo_01_2 = false ∧
     Ampverif.Model.C04Frames.hasDecayingOpposite topo_02_1 = false := by decide
 
-/-! ## the statement for arbitrary decay trees (NOT asserted)
+/-! ## arbitrary decay trees (definitions in `Lemmas/C04Tree.lean`)
 
-Integer spins only: a representation of SO(3) with `D(Rz δ) = diag(e^{-imδ})` exists only for
-integer `m` (half-integer spins need the double cover). Spins and projections are doubled
-(`twoJ : ℕ`, projections `∈ {−twoJ, −twoJ+2, …, twoJ}`). -/
+Spins and projections doubled; `RepFamily` = abstract family of representations of the proper
+rotations for the spins it declares `ok` (an SO(3) family can only provide integer spins);
+`amp` = the source's helicity amplitude of a tree with fixed final-state helicities;
+`Rotated R` = what a global rotation does to the helicity frames — established level by level by
+layer (K): `C04_K_child_frame_momenta` (root), `C04_K_azimuth_shifts`/`C04_K_polar_angle_unchanged`
+(first level below: `h₁ ↦ Rz(δ) h₁`), `C04_K_deeper_frames_coincide` (all deeper levels) and
+`C04_K_second_child_sees_inverse_rotation` (second child). -/
 
-/-- doubled projections of a doubled spin -/
-noncomputable def projs (twoJ : ℕ) : Finset ℤ := (Finset.Icc (-(twoJ : ℤ)) twoJ).filter fun m => (m + twoJ) % 2 = 0
+/-- transformation law at every depth: `A'_m = Σ_{m'} conj D^J_{m m'}(R) A_{m'}` -/
+theorem C04_A_all_trees_transform (F : RepFamily) (t : Tree) (h1 : t.spinsOk F) (h2 : t.spinlessLeaves)
+    (R : Matrix (Fin 3) (Fin 3) ℝ) (f f' : Frames) (hR : IsRot R) (hrot : Rotated R f f') :
+    ∀ m ∈ projs t.twoSpin,
+      amp F t f' m = ∑ m' ∈ projs t.twoSpin, star (F.D t.twoSpin R m m') * amp F t f m' :=
+  amp_rotated F t h1 h2 R f f' hR hrot
 
-/-- abstract family of integer-spin representations with integer-indexed entries -/
-structure RepFamily where
-  D : ℕ → Matrix (Fin 3) (Fin 3) ℝ → ℤ → ℤ → ℂ
-  support : ∀ j R m m', (m ∉ projs j ∨ m' ∉ projs j) → D j R m m' = 0
-  mul : ∀ j, Even j → ∀ R S, IsRot R → IsRot S → ∀ m m',
-    D j (R * S) m m' = ∑ k ∈ projs j, D j R m k * D j S k m'
-  unitary : ∀ j, Even j → ∀ R, IsRot R → ∀ m ∈ projs j, ∀ m' ∈ projs j,
-    ∑ k ∈ projs j, star (D j R k m) * D j R k m' = if m = m' then 1 else 0
-  diag : ∀ j, Even j → ∀ (δ : ℝ), ∀ m ∈ projs j, ∀ m' ∈ projs j,
-    D j (Rz3 δ) m m' = if m = m' then Complex.exp (-(↑((m : ℝ) / 2 * δ) : ℂ) * Complex.I) else 0
+/-- PROVED PART of the tree statement (conditional on the abstract `RepFamily`): any finite set
+of topologies, arbitrary trees of any depth (cascades and two-resonance shapes), spinless final
+states, all couplings, every proper rotation: the unpolarised intensity is invariant. -/
+theorem C04_partial_all_trees_spinless (F : RepFamily) (T : Type) [Fintype T] (tree : T → Tree)
+    (c : T → ℂ) (fr fr' : T → Frames) (R : Matrix (Fin 3) (Fin 3) ℝ) (twoJ : ℕ) (hJ : F.ok twoJ)
+    (hR : IsRot R)
+    (ht : ∀ t, (tree t).twoSpin = twoJ ∧ (tree t).spinsOk F ∧ (tree t).spinlessLeaves)
+    (hrot : ∀ t, Rotated R (fr t) (fr' t)) :
+    ∑ m ∈ projs twoJ, Complex.normSq (∑ t, c t * amp F (tree t) (fr' t) m)
+      = ∑ m ∈ projs twoJ, Complex.normSq (∑ t, c t * amp F (tree t) (fr t) m) :=
+  intensity_rotated F T tree c fr fr' R twoJ hJ hR ht hrot
 
-/-- decay tree with fixed final-state helicities; `H` collects couplings and dynamics -/
-inductive Tree where
-  | leaf (twoJ : ℕ) (twoLam : ℤ)
-  | node (twoJ : ℕ) (H : ℤ → ℤ → ℂ) (c₁ c₂ : Tree)
+/-- UNCONDITIONAL (no representation hypothesis): the same for every set of trees all of whose
+spins are 0 or 1 (`F01`: J = 0 trivial, J = 1 = `U R U†` = SymPy's D¹), e.g. J/ψ → (ρπ)-type
+cascades of any depth with spinless final states. -/
+theorem C04_partial_J01_all_trees (T : Type) [Fintype T] (tree : T → Tree)
+    (c : T → ℂ) (fr fr' : T → Frames) (R : Matrix (Fin 3) (Fin 3) ℝ) (twoJ : ℕ)
+    (hJ : twoJ = 0 ∨ twoJ = 2) (hR : IsRot R)
+    (ht : ∀ t, (tree t).twoSpin = twoJ ∧ (tree t).spinsOk F01 ∧ (tree t).spinlessLeaves)
+    (hrot : ∀ t, Rotated R (fr t) (fr' t)) :
+    ∑ m ∈ projs twoJ, Complex.normSq (∑ t, c t * amp F01 (tree t) (fr' t) m)
+      = ∑ m ∈ projs twoJ, Complex.normSq (∑ t, c t * amp F01 (tree t) (fr t) m) :=
+  intensity_rotated F01 T tree c fr fr' R twoJ hJ hR ht hrot
 
-/-- the helicity frames of an event, one per decay node (relative to the parent's frame) -/
-inductive Frames where
-  | leaf
-  | node (h : Matrix (Fin 3) (Fin 3) ℝ) (f₁ f₂ : Frames)
-
-def Tree.twoSpin : Tree → ℕ
-  | .leaf j _ => j
-  | .node j _ _ _ => j
-
-def Tree.spinlessLeaves : Tree → Prop
-  | .leaf j _ => j = 0
-  | .node _ _ c₁ c₂ => c₁.spinlessLeaves ∧ c₂.spinlessLeaves
-
-def Tree.integerSpins : Tree → Prop
-  | .leaf j _ => Even j
-  | .node j _ c₁ c₂ => Even j ∧ c₁.integerSpins ∧ c₂.integerSpins
-
-/-- the helicity amplitude of the source: `Σ conj D^J_{m, λ₁−λ₂}(h) · H · A¹_{λ₁} · A²_{λ₂}` -/
-noncomputable def amp (F : RepFamily) : Tree → Frames → ℤ → ℂ
-  | .leaf _ l, _, m => if m = l then 1 else 0
-  | .node j H c₁ c₂, .node h f₁ f₂, m =>
-      ∑ l₁ ∈ projs c₁.twoSpin, ∑ l₂ ∈ projs c₂.twoSpin,
-        star (F.D j h m (l₁ - l₂)) * H l₁ l₂ * amp F c₁ f₁ l₁ * amp F c₂ f₂ l₂
-  | .node _ _ _ _, .leaf, _ => 0
-
-/-- what a global rotation does to the frames (proved for the source's kinematics one level at a
-time by `C04_K_child_frame_momenta`, `C04_K_azimuth_shifts`, `C04_K_deeper_frames_coincide`):
-`h ↦ R h Rz(−δ)`, the first child's subtree sees `Rz δ`, the second child's `Rz(−δ)`. -/
-inductive Rotated : Matrix (Fin 3) (Fin 3) ℝ → Frames → Frames → Prop where
-  | leaf (R) : Rotated R .leaf .leaf
-  | node (R h) (f₁ f₂ f₁' f₂' : Frames) (δ : ℝ) : IsRot h → Rotated (Rz3 δ) f₁ f₁' →
-      Rotated (Rz3 (-δ)) f₂ f₂' → Rotated R (.node h f₁ f₂) (.node (R * h * Rz3 (-δ)) f₁' f₂')
-
-/-- FULL STATEMENT (kept as a definition, not proved): for every family of integer-spin
-representations, every finite set of topologies (arbitrary trees, any depth, cascades and
-two-resonance shapes) with spinless final states, all couplings and every proper rotation, the
-unpolarised intensity of the coherent sum is invariant. For a single topology the
-`spinlessLeaves` premise is to be dropped (unit phases per final-state helicity). Proved above:
-the two-level trees (`C04_single_topology_events`, `C04_multi_topology_events`). -/
+/-- FULL STATEMENT on trees (kept as a definition, NOT proved): as
+`C04_partial_all_trees_spinless`, but a SINGLE topology may have final states with spin (then each
+final-state helicity configuration only picks up a unit phase). Also not covered by any theorem
+here: half-integer spins (they need a family on the double cover), and the packaging of the
+level-by-level kinematic lemmas into one induction that produces `Rotated` from rotated momenta. -/
 def C04_full_statement : Prop :=
   ∀ (F : RepFamily) (T : Type) [Fintype T] (tree : T → Tree) (c : T → ℂ) (fr fr' : T → Frames)
-    (R : Matrix (Fin 3) (Fin 3) ℝ) (twoJ : ℕ), IsRot R →
-    (∀ t, (tree t).twoSpin = twoJ ∧ (tree t).integerSpins ∧ (tree t).spinlessLeaves) →
+    (R : Matrix (Fin 3) (Fin 3) ℝ) (twoJ : ℕ), F.ok twoJ → IsRot R →
+    (∀ t, (tree t).twoSpin = twoJ ∧ (tree t).spinsOk F) →
+    ((∀ t, (tree t).spinlessLeaves) ∨ Subsingleton T) →
     (∀ t, Rotated R (fr t) (fr' t)) →
     ∑ m ∈ projs twoJ, Complex.normSq (∑ t, c t * amp F (tree t) (fr' t) m)
       = ∑ m ∈ projs twoJ, Complex.normSq (∑ t, c t * amp F (tree t) (fr t) m)
@@ -362,6 +346,18 @@ example : 0 < nrm (sp P₀) ∧ 0 < (sp (helframe P₀ *ᵥ q₀)) 0 ^ 2 + (sp (
     simp [sp, q₀, Matrix.mulVec, dotProduct, Fin.sum_univ_four]
   rw [h1]
   positivity
+
+/-- a non-trivial tree and frames meeting the hypotheses of the tree theorems: J = 1 → (J = 1 → 0 0) 0,
+rotated frames for a rotation about y -/
+def tree₀ : Tree := .node 2 (fun _ _ => 1) (.node 2 (fun _ _ => 1) (.leaf 0 0) (.leaf 0 0)) (.leaf 0 0)
+
+example : tree₀.spinsOk F01 ∧ tree₀.spinlessLeaves ∧ tree₀.twoSpin = 2 := by
+  simp [tree₀, Tree.spinsOk, Tree.spinlessLeaves, Tree.twoSpin, F01]
+
+example : Rotated (Ry3 0.7) (.node (Rz3 0.2) (.node (Ry3 0.4) .leaf .leaf) .leaf)
+    (.node (Ry3 0.7 * Rz3 0.2 * Rz3 (-0.3)) (.node (Rz3 0.3 * Ry3 0.4 * Rz3 (-0)) .leaf .leaf) .leaf) :=
+  Rotated.node _ _ _ _ _ _ 0.3 (Rz3_isRot _)
+    (Rotated.node _ _ _ _ _ _ 0 (Ry3_isRot _) (Rotated.leaf _) (Rotated.leaf _)) (Rotated.leaf _)
 
 /-- the index hypothesis of the multi-topology theorem holds for ρπ (`ι = id`, spectator spin 0) -/
 example : ∀ l, W1.wt (id l) = W1.wt l - 0 := fun _ => by simp
